@@ -52,9 +52,12 @@ func isIRI(processingMode string, v string) bool {
 		// url.Parse(RequestURI)? does not actually error on an unencoded space
 		// there is probably a better way to validate?
 
+		// ParseRequestURI expects no fragment (it would read one as part of the authority or path)
+		vNoFragment, _, _ := strings.Cut(v, "#")
+
 		if strings.Contains(v, " ") {
 			return false
-		} else if _, err := url.ParseRequestURI(v); err != nil {
+		} else if _, err := url.ParseRequestURI(vNoFragment); err != nil {
 			return false
 		}
 	}
